@@ -107,12 +107,25 @@ def build(clean=False):
             if rc != 0:
                 raise BuildError("extraction", out)
             sh(f"cp {VERIF}/ocaml/*.ml {ext}/")
+            gen_clause_printer(os.path.join(ext, "pclauses.ml"))
             rc, out = sh("ocamlfind ocamlopt -O2 -w -a $(ocamlfind ocamldep -sort *.mli *.ml) -o ../driver",
                          cwd=ext, timeout=900)
             if rc != 0:
                 raise BuildError("ocaml driver", out)
             open(stamp, "w").write(str(time.time()))
     return time.time() - t0
+
+
+def gen_clause_printer(path):
+    """OCaml printer for the constructors of PMon.clause (names only; generated from PMon.v)."""
+    text = open(os.path.join(COQ, "theories", "pool", "PMon.v")).read()
+    body = text[text.index("Inductive clause :="):text.index("Definition clause_prop")]
+    body = re.sub(r"\(\*.*?\*\)", " ", body, flags=re.S)
+    names = re.findall(r"\|\s*(C\d\d_\w+)", body)
+    with open(path, "w") as f:
+        f.write("let show_clause (c : PMon.clause) : string = match c with\n")
+        for n in names:
+            f.write(f"  | PMon.{n} -> \"{n[:3]}.{n[4:]}\"\n")
 
 
 def print_assumptions(module, theorems):
